@@ -15,7 +15,9 @@ import common as C  # noqa: E402
 
 def diff_stream(rep, name, cases, impl, model, nontrivial_key=None, project=None, why="model and implementation disagree"):
     """compare outputs line by line; `project` maps an output line to the part the property speaks about"""
-    st = rep.streams.setdefault(name, {"cases": 0, "disagreements": 0, "impl_panics": 0})
+    st = rep.streams.setdefault(name, {})
+    for k in ("cases", "disagreements", "impl_panics"):
+        st.setdefault(k, 0)
     st["cases"] += len(cases)
     rep.evaluations += len(cases)
     rep.traces += len(cases)
